@@ -11,7 +11,7 @@ TRUSTED = ["Oracle/Controller.v, Oracle/DrawSpec.v", "harness/build.rs extractio
 ASSUMPTIONS = ["rectangles valid for embedded-graphics with < 2^32 points; finite fused colour iterators (lists / ranges)"]
 PER_SHARD = 30
 CASE_TYPE = "(c4case * c4out)"
-IMPORTS = "Require Import Model.Ptr16 Corr.C04."
+IMPORTS = "Require Import Model.Ptr16 Corr.L2 Corr.C04."
 
 
 def rect_cases(rng, lw, lh):
@@ -58,6 +58,32 @@ def gen(rng, tier, info, ifaces=(0, 1, 2, 7)):
         c = vlib.pcase(pc)
         c.coq = "C4P (%s)" % c.coq
         cases.append(c)
+    # rectangles clipped by 65536 columns or more per row (per-row skip counts beyond u16), stream long enough to
+    # reach the second and third visible row
+    for _ in range(12 if tier == "quick" else 60):
+        pc, m, lw, lh, cmax = drawgen.config(rng, info, ifaces=ifaces, models=small_models)
+        wide = 65536 + rng.choice([0, 1, 4464, rng.range(0, 9000)]) + lw
+        x0 = rng.choice([-5, 0, -(wide - lw) // 2, -(wide - lw)])
+        y0 = rng.range(-1, max(0, lh - 2))
+        hh = rng.range(2, 3)
+        pc["ops"] = [(-1, ("fcg", (x0, y0, wide, hh), wide * hh))]
+        pc["tags"] = ["wide-rect"]
+        pc["nontrivial"] = True
+        c = vlib.pcase(pc)
+        c.coq = "C4P (%s)" % c.coq
+        cases.append(c)
+    # clipped fills below the real transports (small panels, pin-level logs decoded in Coq)
+    for _ in range(n // 6):
+        pc, m, lw, lh, cmax = drawgen.l2_config(rng, info)
+        r = rng.choice(rect_cases(rng, lw, lh))
+        area = r[2] * r[3]
+        nn = rng.choice([area, area + 3, max(0, area - 1), area // 2])
+        pc["ops"] = [(-1, ("fc", r, [(i * 5 + 1) % (cmax + 1) for i in range(nn)]))]
+        pc["tags"] = ["L2", "iface%d" % pc["iface"]]
+        pc["nontrivial"] = True
+        c = vlib.pcase(pc)
+        c.coq = "C4L2 (%s)" % c.coq
+        cases.append(c)
     # the 16-bit-pointer helper variants, extracted from the current source
     for _ in range(150 if tier == "quick" else 1500):
         ln = rng.choice([0, 1, 2, 5, rng.range(0, 40)])
@@ -81,7 +107,7 @@ def wrap_impl(case, impl):
         a, rest = inner.split(",", 1)
         b, c = rest.rsplit(", [", 1)
         return "C4H %s %s [%s" % (a.strip(), b.strip(), c.strip())
-    return "C4PO " + impl
+    return ("C4PO2 " if "L2" in case.tags else "C4PO ") + impl
 
 
 def shrink(case):
@@ -89,5 +115,6 @@ def shrink(case):
         return []
     out = drawgen.shrink_prog(case)
     for c in out:
-        c.coq = "C4P (%s)" % c.coq
+        c.coq = ("C4L2 (%s)" if "L2" in case.tags else "C4P (%s)") % c.coq
+        c.tags = list(case.tags)
     return out
